@@ -505,7 +505,7 @@ def report(ctx, seen, klass, what, replay):
 def run_arith(ctx, info):
     rng = ctx.rng
     cases = grid_cases(ctx, info)
-    n_rand = ctx.n(4000, 120000)
+    n_rand = ctx.n(4000, 60000)
     for k in range(n_rand):
         r = rng.random()
         if r < 0.55:
@@ -521,7 +521,7 @@ def run_arith(ctx, info):
             uniq.append((e, fam))
     cases = uniq
     model_lines, spec_lines, metas = [], [], []
-    seen = {}
+    seen = ctx._c16_seen
     for e, fam in cases:
         if not coq_safe(e):
             ctx.count("skipped:shift count / exponent / intermediate too large for the model")
@@ -593,12 +593,11 @@ def run_arith(ctx, info):
                {"goal": "X is " + show(w), "expr": w, "observed": list(wo), "expected": spec_expected(w), "from": show(e)})
     ctx.cov["arith_spec_violating_goals"] = len(bad_spec)
     ctx.cov["arith_spec_distinct_minimal_witnesses"] = len(done)
-    ctx._c16_seen = seen
 
 
 def run_cmp(ctx):
     rng = ctx.rng
-    seen = getattr(ctx, "_c16_seen", {})
+    seen = ctx._c16_seen
     vals = [I(a) for a in (-3, -1, 0, 1, 2, 2 ** 64)] + [F(x) for x in (-1.5, 0.0, 1.0, 2.0, 2.5)]
     cases = []
     for op in CMP:
@@ -608,7 +607,7 @@ def run_cmp(ctx):
         cases += [(op, A("//", I(1), I(0)), I(1)), (op, I(1), A("foo")), (op, VAR, I(1)), (op, I(1), A("+", VAR, I(1))),
                   (op, A("/\\", F(1.5), I(1)), A("//", I(1), I(0))), (op, A("nan"), I(1)), (op, A("inf"), A("inf")),
                   (op, A("//", I(-7), I(2)), I(-3))]
-    for k in range(ctx.n(1500, 40000)):
+    for k in range(ctx.n(1500, 15000)):
         io = rng.random() < 0.5
         cases.append((rng.choice(list(CMP)), rand_expr(rng, rng.choice([1, 2, 3]), io), rand_expr(rng, rng.choice([0, 1, 2]), io)))
     lines, metas = [], []
@@ -647,8 +646,18 @@ def run_cmp(ctx):
 
 
 def run_probes(ctx):
-    """Targeted probes for deviations the grids cannot express in the model."""
-    seen = getattr(ctx, "_c16_seen", {})
+    """Targeted probes: canonical witnesses of the known deviation classes (reported first, so
+    the replay of a class is its simplest input) and deviations the grids cannot express."""
+    seen = ctx._c16_seen
+    for e in [A("//", I(-7), I(2)), A("/\\", F(1.5), I(1)), A("exp", I(1000)), A("**", I(-8), F(0.5))]:
+        o = observe_is(e)
+        ctx.case(("probe", e), True)
+        if o[0] in ("raw", "other"):
+            report(ctx, seen, classify_raw(e, o), "X is %s %s" % (show(e), "raises Python %s (not a ProbLogError)" % o[1] if o[0] == "raw" else "gives " + o[1]),
+                   {"goal": "X is " + show(e), "expr": e, "observed": list(o), "expected": "a number or a ProbLogError"})
+        elif o[0] == "int" and spec_expected(e) != o[1] and isinstance(spec_expected(e), int):
+            report(ctx, seen, classify_spec(e, o), "X is %s gives %s; ISO/SWI/YAP give %s" % (show(e), o[1], spec_expected(e)),
+                   {"goal": "X is " + show(e), "expr": e, "observed": list(o), "expected": spec_expected(e)})
     # strings as operands
     for e in [A("+", ("str", "abc"), I(1)), A("*", F(1.5), ("str", "a")), A("-", ("str", "a"))]:
         o = observe_is(e)
@@ -708,7 +717,9 @@ def run(ctx):
                         "engine.functions (user-defined arithmetic functions) is empty, as in DefaultEngine()",
                         "reference = ISO 13211-1 integer semantics as written in IsoArith.v (SWI-Prolog / YAP not installed)"]
     info = generate(ctx)
-    ctx.prove("C16/Props.v")
+    ok = ctx.prove("C16/Props.v")
+    if ok and ctx.tier == "thorough":
+        ctx.coqchk("PL.C16.Props")
     compile_findings(ctx)
     if ctx.replay:
         r = ctx.replay.get("replay", {})
@@ -717,9 +728,10 @@ def run(ctx):
                 return tuple(tup(y) for y in x) if isinstance(x, list) else x
             e = tup(r["expr"])
             ctx.log("replay: X is %s -> %r (recorded %r)" % (show(e), observe_is(e), r.get("observed")))
+    ctx._c16_seen = {}
+    run_probes(ctx)
     run_arith(ctx, info)
     run_cmp(ctx)
-    run_probes(ctx)
     try:
         import importlib
         b = importlib.import_module("c16_builtins")
